@@ -14,6 +14,7 @@ type c04File struct {
 	bytes []byte
 	frame *Frame
 	nbits int
+	npat  int // patterns per (start bit, length): 16384 = every pattern of every length
 }
 
 type propC04 struct {
@@ -113,9 +114,18 @@ func (p *propC04) Prepare(seed uint64, tier string) int {
 	}
 	p.cum = nil
 	total := 0
+	small := 0
+	for i := range p.files {
+		p.files[i].npat = p.npat
+		// thorough: the four smallest files get every pattern of every burst length
+		if base == "thorough" && len(p.files[i].bytes) <= 200 && small < 4 {
+			p.files[i].npat = 1 << 14
+			small++
+		}
+	}
 	if enum {
 		for _, f := range p.files {
-			total += f.nbits * 16 * p.npat
+			total += f.nbits * 16 * f.npat
 			p.cum = append(p.cum, total)
 		}
 	}
@@ -156,8 +166,8 @@ func (p *propC04) Gen(idx int) *Scenario {
 	}
 	f := &p.files[fi]
 	x := idx - lo
-	pi := x % p.npat
-	x /= p.npat
+	pi := x % f.npat
+	x /= f.npat
 	l := x%16 + 1
 	bit := x / 16
 	if bit+l > f.nbits || burstExcluded(bit, l) {
@@ -172,7 +182,7 @@ func (p *propC04) Gen(idx int) *Scenario {
 		nmid := uint(l - 2)
 		var mid uint32
 		space := uint32(1) << nmid
-		if uint32(p.npat) >= space || len(f.bytes) <= 200 && strings.HasPrefix(p.tier, "thorough") {
+		if uint32(f.npat) >= space {
 			if uint32(pi) >= space {
 				return nil
 			}
